@@ -20,6 +20,12 @@
   jobs) everywhere; at `n = 0` `multiprocessing.Pool(0)` raises `ValueError`:
   `zero_jobs_raises`.
 
+  The word-counter theorems are about `wordsSymbolsE`, the function the driver
+  evaluates (op `text_words`): `words_symbols` with its `ValueError` at
+  `n_jobs = 0` and the harness-side `missingLower` (a word the Python-supplied
+  `lower` table lacks).  `wordsSymbols` (the bare fold over the jobs) is an
+  internal definition; `words_symbols_E_eq` relates the two for `n ≥ 1`.
+
   Lemmas that merely restate a definition are at the end under
   "lemmas (not property theorems)".
 -/
@@ -103,14 +109,40 @@ theorem direct_is_one_job (intOf : Str → Option Int) (content : Str) (evs : Li
 
 /-- **`words_symbols` is exact for every `n_jobs ≥ 1`**: given the words of all
     lines `ws` (after `split`, `strip`, punctuation strip, optional `lower`, empty
-    words dropped), the word counter holds `ws.count x` and the symbol counter
-    the total number of occurrences of the character `x` in the words. -/
+    words dropped), the call returns, and the word counter holds `ws.count x` and
+    the symbol counter the total number of occurrences of the character `x` in
+    the words.  Stated for `wordsSymbolsE`, the function the driver runs. -/
 theorem word_counts_exact (lower : Option (List (Str × Str))) (n : Nat) (hn : 1 ≤ n)
     (lines : List (List Str)) (ws : List Str) (h : linesWords lower lines = some ws) :
-    ∃ r, wordsSymbols lower n lines = some r ∧
+    ∃ r, wordsSymbolsE lower n lines = .ok r ∧
       (∀ x, cGet r.words x = ws.count x) ∧
-      (∀ x, cGet r.symbols x = (ws.map (symCount x)).sum) :=
-  Text.wordsSymbols_exact lower n hn lines ws h
+      (∀ x, cGet r.symbols x = (ws.map (symCount x)).sum) := by
+  obtain ⟨r, hr, h1, h2⟩ := Text.wordsSymbols_exact lower n hn lines ws h
+  exact ⟨r, (Text.wordsSymbolsE_ok_iff lower n hn lines r).2 hr, h1, h2⟩
+
+/-- … and when the words of some line cannot be determined (the Python-supplied
+    `lower` table lacks a word — a harness matter, not a behaviour of pyndl) the
+    driver reports `missingLower` for every `n_jobs ≥ 1`: the faulty line is read
+    by one of the jobs.  (Was listed as NOT PROVED.) -/
+theorem word_counts_error (lower : Option (List (Str × Str))) (n : Nat) (hn : 1 ≤ n)
+    (lines : List (List Str)) (h : linesWords lower lines = none) :
+    wordsSymbolsE lower n lines = .error .missingLower :=
+  (Text.wordsSymbolsE_pos lower n hn lines).2 (Text.wordsSymbols_error lower n hn lines h)
+
+/-- **`words_symbols` does not depend on the number of processes**: what can be
+    observed of the result (every word count, every symbol count, or the error)
+    is the same for any two `n, m ≥ 1`, for every table of lines. -/
+theorem word_n_jobs_irrelevant (lower : Option (List (Str × Str))) (n m : Nat) (hn : 1 ≤ n) (hm : 1 ≤ m)
+    (lines : List (List Str)) (x y : Str) :
+    (wordsSymbolsE lower n lines).map (fun r => (cGet r.words x, cGet r.symbols y))
+      = (wordsSymbolsE lower m lines).map (fun r => (cGet r.words x, cGet r.symbols y)) := by
+  cases h : linesWords lower lines with
+  | none => rw [word_counts_error lower n hn lines h, word_counts_error lower m hm lines h]
+  | some ws =>
+    obtain ⟨r, hr, a1, a2⟩ := word_counts_exact lower n hn lines ws h
+    obtain ⟨r', hr', b1, b2⟩ := word_counts_exact lower m hm lines ws h
+    rw [hr, hr']
+    simp [Except.map, a1, a2, b1, b2]
 
 /-- **the returned counters have distinct keys and no zero counts** — for every
     `int`, every number of jobs, every file for which the call returns: every
@@ -133,14 +165,16 @@ theorem counters_distinct_positive (intOf : Str → Option Int) (n : Nat) (conte
   · exact hc.2 kn h'
   · exact ho.2 kn h'
 
-/-- the same for `words_symbols`. -/
+/-- the same for `words_symbols` (for every `n_jobs` for which the call returns;
+    at `n_jobs = 0` it does not: `zero_jobs_raises`). -/
 theorem word_counters_distinct_positive (lower : Option (List (Str × Str))) (n : Nat)
-    (lines : List (List Str)) (r : WS) (h : wordsSymbols lower n lines = some r) :
+    (lines : List (List Str)) (r : WS) (h : wordsSymbolsE lower n lines = .ok r) :
     (r.words.map Prod.fst).Nodup ∧ (r.symbols.map Prod.fst).Nodup ∧
     (∀ kn ∈ r.words ++ r.symbols, 0 < kn.2) ∧
     (∀ x, x ∈ r.words.map Prod.fst ↔ 0 < cGet r.words x) ∧
     (∀ x, x ∈ r.symbols.map Prod.fst ↔ 0 < cGet r.symbols x) := by
-  obtain ⟨hw, hs⟩ := Text.wordsSymbols_ok lower n lines r h
+  have hn := Text.wordsSymbolsE_ok_pos lower n lines r h
+  obtain ⟨hw, hs⟩ := Text.wordsSymbols_ok lower n lines r ((Text.wordsSymbolsE_ok_iff lower n hn lines r).1 h)
   refine ⟨hw.1, hs.1, ?_, hw.mem_iff, hs.mem_iff⟩
   intro kn hkn
   rcases List.mem_append.mp hkn with h' | h'
@@ -189,9 +223,6 @@ theorem n_jobs_irrelevant (n m : Nat) (hn : 1 ≤ n) (hm : 1 ≤ m) (content : S
       = (cuesOutcomes m content).map (fun r => (r.n, cGet r.cues x, cGet r.outcomes x)) :=
   n_jobs_irrelevant_with pyInt n m hn hm content x
 
--- NOT PROVED: the analogous error direction for `wordsSymbols` (a missing entry of
--- the Python-supplied `lower` table); it is not a behaviour of pyndl but of the
--- harness' table, and the driver reports it as `missing_lower`.
 
 /-! Non-vacuity: a file with header, a frequency column (2, 0, absent) read by 5
 jobs (more jobs than lines): 3 events, cue `a` twice, outcome `x` three times;
@@ -205,7 +236,7 @@ example :
     (cuesOutcomes 5 content).map (fun r => (r.cues.map Prod.fst, r.outcomes.map Prod.fst))
       = some ([['a'], ['b'], ['c']], [['x'], ['y']]) ∧
     cuesOutcomes 0 content = none ∧
-    (wordsSymbols none 2 [[['h', 'i', '!'], ['a']], [['.']], [['h', 'i']]]).map
+    (wordsSymbolsE none 2 [[['h', 'i', '!'], ['a']], [['.']], [['h', 'i']]]).toOption.map
         (fun r => (cGet r.words ['h', 'i'], cGet r.symbols ['i'], r.words.length))
       = some (2, 2, 2) := by
   decide +kernel
@@ -231,6 +262,120 @@ example :
     cuesOutcomes 2 "cues\toutcomes\na\tx\t1.0\n".toList = none := by
   decide +kernel
 
+/-! ### the main theorems APPLIED (every hypothesis instantiated) -/
+
+/-- `cues_outcomes_exact`, `n_events_exact`, `cue_counts_exact`,
+    `outcome_counts_exact` on the review file read by 3 jobs: the hypothesis
+    `parseFile 0 1 … = some evs` is discharged by evaluation (13 events: 0 + 2 +
+    1 + 10), the conclusions are the theorems'. -/
+example :
+    (∃ r, cuesOutcomes 3 reviewFile = some r ∧ r.n = 13 ∧ cGet r.cues ['b'] = 3 ∧ cGet r.outcomes ['z'] = 10) ∧
+    (cuesOutcomes 3 reviewFile).map (·.n) = some 13 ∧
+    (cuesOutcomes 7 reviewFile).map (fun r => cGet r.cues ['c']) = some 10 ∧
+    (cuesOutcomes 2 reviewFile).map (fun r => cGet r.outcomes ['y']) = some 3 := by
+  have h : parseFile 0 1 reviewFile
+      = some (List.replicate 3 ⟨[['b']], [['y']]⟩ ++ List.replicate 10 ⟨[['c']], [['z']]⟩) := by
+    decide +kernel
+  obtain ⟨r, h1, h2, h3, h4⟩ := cues_outcomes_exact 3 (by omega) _ _ h
+  refine ⟨⟨r, h1, by simpa using h2, ?_, ?_⟩, ?_, ?_, ?_⟩
+  · rw [h3]; decide +kernel
+  · rw [h4]; decide +kernel
+  · simpa using n_events_exact 3 (by omega) _ _ h
+  · rw [cue_counts_exact 7 (by omega) _ _ h]; decide +kernel
+  · rw [outcome_counts_exact 2 (by omega) _ _ h]; decide +kernel
+
+/-- `cues_outcomes_exact_with` with an `int` that is NOT `pyInt` (a table that
+    reads `"two"` as 2 and rejects everything else but what `pyInt` reads). -/
+example :
+    ∃ r, cuesOutcomesWith (intOfTable [("two".toList, some 2)]) 4 "h\na_b\tx\ttwo\n".toList = some r ∧
+      r.n = 2 ∧ cGet r.cues ['a'] = 2 := by
+  have h : parseFileWith (intOfTable [("two".toList, some 2)]) 0 1 "h\na_b\tx\ttwo\n".toList
+      = some (List.replicate 2 ⟨[['a'], ['b']], [['x']]⟩) := by decide +kernel
+  obtain ⟨r, h1, h2, h3, _⟩ := cues_outcomes_exact_with _ 4 (by omega) _ _ h
+  exact ⟨r, h1, by simpa using h2, by rw [h3]; decide +kernel⟩
+
+/-- `n_jobs_irrelevant(_with)` APPLIED: 2 jobs against 5 jobs on the review file
+    (the theorem has no hypothesis on the file), and on a file that raises. -/
+example :
+    (cuesOutcomes 2 reviewFile).map (fun r => (r.n, cGet r.cues ['b'], cGet r.outcomes ['b']))
+      = (cuesOutcomes 5 reviewFile).map (fun r => (r.n, cGet r.cues ['b'], cGet r.outcomes ['b'])) ∧
+    (cuesOutcomesWith pyInt 1 "cues\toutcomes\na\tx\t1.0\n".toList).map
+        (fun r => (r.n, cGet r.cues ['a'], cGet r.outcomes ['a']))
+      = (cuesOutcomesWith pyInt 9 "cues\toutcomes\na\tx\t1.0\n".toList).map
+        (fun r => (r.n, cGet r.cues ['a'], cGet r.outcomes ['a'])) :=
+  ⟨n_jobs_irrelevant 2 5 (by omega) (by omega) reviewFile ['b'],
+   n_jobs_irrelevant_with pyInt 1 9 (by omega) (by omega) _ ['a']⟩
+
+/-- `cues_outcomes_error(_with)` APPLIED: the file with third column `1.0`. -/
+example : cuesOutcomes 6 "cues\toutcomes\na\tx\t1.0\n".toList = none :=
+  cues_outcomes_error 6 (by omega) _ (by decide +kernel)
+
+/-- `counters_distinct_positive` APPLIED to the result of 3 jobs on the review
+    file: the hypothesis (the call returns `r`) by evaluation. -/
+example :
+    let r : CO := ⟨13, [(['b'], 3), (['c'], 10)], [(['y'], 3), (['z'], 10)]⟩
+    (r.cues.map Prod.fst).Nodup ∧ (∀ kn ∈ r.cues ++ r.outcomes, 0 < kn.2) ∧
+    (['a'] ∈ r.cues.map Prod.fst ↔ 0 < cGet r.cues ['a']) := by
+  intro r
+  have h : cuesOutcomesWith pyInt 1 reviewFile = some r := by
+    have : (cuesOutcomes 1 reviewFile).map (fun r => (r.n, r.cues, r.outcomes))
+        = some ((13 : Int), [(['b'], 3), (['c'], 10)], [(['y'], 3), (['z'], 10)]) := by decide +kernel
+    unfold cuesOutcomes at this
+    cases hc : cuesOutcomesWith pyInt 1 reviewFile with
+    | none => rw [hc] at this; cases this
+    | some r' =>
+      rw [hc] at this
+      simp only [Option.map_some, Option.some.injEq, Prod.mk.injEq] at this
+      obtain ⟨a, b, c⟩ := this
+      cases r'; simp_all; rfl
+  obtain ⟨h1, _, h3, h4, _⟩ := counters_distinct_positive pyInt 1 reviewFile r h
+  exact ⟨h1, h3, h4 ['a']⟩
+
+/-- `zero_jobs_raises`, `stride_perm`, `strided_sum`, `job_count_is_length`,
+    `direct_is_one_job` APPLIED. -/
+example :
+    (cuesOutcomes 0 reviewFile = none ∧
+      wordsSymbolsE none 0 [[['a']]] = .error .value) ∧
+    ((List.range 3).flatMap (fun k => stride k 3 [10, 11, 12, 13, 14, 15, 16])).Perm [10, 11, 12, 13, 14, 15, 16] ∧
+    ((List.range 3).map (fun k => ((stride k 3 [10, 11, 12, 13, 14, 15, 16]).map (fun x => 2 * x)).sum)).sum
+      = ([10, 11, 12, 13, 14, 15, 16].map (fun x => 2 * x)).sum ∧
+    (jobCuesOutcomes [⟨[['a']], []⟩, ⟨[['a']], []⟩]).n = 2 :=
+  ⟨⟨(zero_jobs_raises pyInt reviewFile none [[['a']]]).2.1, (zero_jobs_raises pyInt reviewFile none [[['a']]]).2.2⟩,
+   stride_perm 3 (by omega) _, strided_sum (fun x => 2 * x) 3 (by omega) _,
+   by simpa using job_count_is_length [⟨[['a']], []⟩, ⟨[['a']], []⟩]⟩
+
+/-- the direct one-pass count on the review file (`direct_is_one_job` APPLIED) -/
+example :
+    (directCuesOutcomesWith pyInt reviewFile).map (fun r => (r.n, cGet r.cues ['b'], cGet r.outcomes ['b']))
+      = some (13, 3, 0) := by
+  have h : parseFileWith pyInt 0 1 reviewFile
+      = some (List.replicate 3 ⟨[['b']], [['y']]⟩ ++ List.replicate 10 ⟨[['c']], [['z']]⟩) := by
+    decide +kernel
+  rw [direct_is_one_job pyInt reviewFile _ h ['b']]
+  decide +kernel
+
+/-- the word counter: `word_counts_exact`, `word_counters_distinct_positive`,
+    `word_n_jobs_irrelevant`, `word_counts_error` APPLIED.  Lines
+    `hi! a` / `.` / `Hi` with the `lower` table `{hi ↦ hi, Hi ↦ hi, a ↦ a, "" ↦ ""}`,
+    3 jobs; and a table that lacks `Hi`. -/
+def wsLines : List (List Str) := [[['h', 'i', '!'], ['a']], [['.']], [['H', 'i']]]
+def wsLower : List (Str × Str) :=
+  [(['h', 'i'], ['h', 'i']), (['H', 'i'], ['h', 'i']), (['a'], ['a']), ([], [])]
+
+example :
+    (∃ r, wordsSymbolsE (some wsLower) 3 wsLines = .ok r ∧
+      cGet r.words ['h', 'i'] = 2 ∧ cGet r.symbols ['i'] = 2 ∧
+      (r.words.map Prod.fst).Nodup ∧ (∀ kn ∈ r.words ++ r.symbols, 0 < kn.2)) ∧
+    (wordsSymbolsE (some wsLower) 2 wsLines).map (fun r => (cGet r.words ['a'], cGet r.symbols ['h']))
+      = (wordsSymbolsE (some wsLower) 5 wsLines).map (fun r => (cGet r.words ['a'], cGet r.symbols ['h'])) ∧
+    wordsSymbolsE (some (wsLower.take 1)) 4 wsLines = .error .missingLower := by
+  have h : linesWords (some wsLower) wsLines = some [['h', 'i'], ['a'], ['h', 'i']] := by decide +kernel
+  obtain ⟨r, hr, h1, h2⟩ := word_counts_exact (some wsLower) 3 (by omega) wsLines _ h
+  obtain ⟨d1, _, d3, _, _⟩ := word_counters_distinct_positive (some wsLower) 3 wsLines r hr
+  refine ⟨⟨r, hr, by rw [h1]; decide +kernel, by rw [h2]; decide +kernel, d1, d3⟩,
+    word_n_jobs_irrelevant (some wsLower) 2 5 (by omega) (by omega) wsLines ['a'] ['h'],
+    word_counts_error _ 4 (by omega) wsLines (by decide +kernel)⟩
+
 /-! ### lemmas (not property theorems) -/
 
 /-- (definitional: `decide` on a regenerated constant) the punctuation set the word counter strips is the literal in count.py
@@ -243,5 +388,14 @@ theorem literals_match_source : Generated.countPunct.toList = punct := by decide
 theorem counter_keys_unique (c : Counter) (a : Str) (n : Nat) (h : (c.map Prod.fst).Nodup) :
     ((cAdd c a n).map Prod.fst).Nodup :=
   (Text.cAdd_keys_nodup c a n h).1
+
+/-- (definitional: unfolds `wordsSymbolsE` at `n ≠ 0`) **the function the driver
+    runs is the job fold for `n ≥ 1`**: `.ok r` exactly when the fold returns `r`;
+    `missingLower` exactly when the fold fails. -/
+theorem words_symbols_E_eq (lower : Option (List (Str × Str))) (n : Nat) (hn : 1 ≤ n)
+    (lines : List (List Str)) :
+    (∀ r, wordsSymbolsE lower n lines = .ok r ↔ wordsSymbols lower n lines = some r) ∧
+    (wordsSymbols lower n lines = none → wordsSymbolsE lower n lines = .error .missingLower) :=
+  ⟨fun r => Text.wordsSymbolsE_ok_iff lower n hn lines r, (Text.wordsSymbolsE_pos lower n hn lines).2⟩
 
 end Pyndl.C11
